@@ -276,7 +276,10 @@ def run(R):
             R.inst("C05.versions.recorded", "K5 must-follow", "every reply is recorded under its version", 0, False)
         else:
             g2 = cfg_of(acc2)
-            R.must_pass("C05.versions.recorded", acc2, [("the responder is recorded (HashSet::insert)", CallSink("*HashSet::insert", "std::collections::hash::set::HashSet::insert", "std::collections::hash::set::HashSet::<T, S>::insert"))],
+            R.must_pass("C05.versions.recorded", acc2, [("the responder is recorded (HashSet::insert into the version's peer list, or a new version entry holding it)",
+                          CallSink("*HashSet::insert", "std::collections::hash::set::HashSet::insert", "std::collections::hash::set::HashSet::<T, S>::insert",
+                                   "*VacantEntry<'a, K, V, A>::insert", "*VacantEntry::insert", "*VacantEntry<'a, K, V>::insert", "*Entry<'a, K, V, A>::or_insert", "*Entry<'a, K, V>::or_insert",
+                                   "*Entry<'a, K, V, A>::or_insert_with", "*Entry<'a, K, V>::or_insert_with"))],
                         from_blocks=tuple(d for v in vid for d, _ in g2.succ[v]), descr="every reply of a pending query is recorded under its version before the quorum is judged")
     # ... and the set handed out as SplitRecord is the whole map (copied or moved, no element-dropping adaptor on the way)
     from rules import _chain_calls, DROPPING_ADAPTORS
